@@ -734,7 +734,8 @@ def signature(case, obs, msg):
             return "index-name-stale:shared-context"
         return s
     lat = obs.get("latent") or []
-    if lat and msg and "CoreVM" in msg:
+    if lat and msg:
+        # a correspondence difference (no oracle finding) in a case where the defect of an open finding is visible
         return lat[0]
     return None
 
